@@ -5,7 +5,9 @@ import z3
 from smtk import regex2z3
 
 
-def extract_pattern(path='/repo/param/parameters.py'):
+def extract_pattern(path=None):
+    import os
+    path = path or os.path.join(os.environ.get('VERIF_REPO', '/repo'), 'param/parameters.py')
     tree = ast.parse(open(path).read())
     for node in ast.walk(tree):
         if isinstance(node, ast.ClassDef) and node.name == 'Color':
